@@ -167,7 +167,7 @@ theorem c06_block (env : Env) (s : App) (dt : Int) (votes : List Vote) (pre post
     (hfail : ∀ s1 incs1, (runTx env s1 incs1 tx).1 ≠ .ok) :
     (block env s ⟨dt, votes, pre ++ tx :: post⟩).map (fun r => (r.1.updates, r.2)) =
     (block env s ⟨dt, votes, pre ++ post⟩).map (fun r => (r.1.updates, r.2)) := by
-  unfold block
+  unfold block beforeEnd
   simp only
   cases slashingBegin votes { s with height := s.height + 1, time := s.time + dt } with
   | error h => rfl
